@@ -209,3 +209,17 @@ pub fn transcript(c: &PCase) -> String {
     }
     out
 }
+
+/// The allocation-free API surface BY NAME: every type a user of the feature-less crate may have to spell in a signature or a struct
+/// field (not only obtain by inference) must be exported in every configuration. Never constructed; it only has to compile in all
+/// three probe builds and in the harness (seeded change C19-r12m1 moved one re-export behind `alloc`).
+#[allow(dead_code)]
+pub struct Surface<'a> {
+    pub list: Option<tz::datetime::FoundDateTimeListRefMut<'a>>,
+    pub kind: Option<tz::datetime::FoundDateTimeKind>,
+    pub dt: Option<(tz::DateTime, tz::datetime::DateTime, tz::UtcDateTime, tz::datetime::UtcDateTime)>,
+    pub zone: Option<(tz::TimeZoneRef<'a>, tz::timezone::TimeZoneRef<'a>, tz::LocalTimeType, tz::timezone::LocalTimeType)>,
+    pub parts: Option<(tz::timezone::Transition, tz::timezone::LeapSecond, tz::timezone::TransitionRule, tz::timezone::AlternateTime)>,
+    pub days: Option<(tz::timezone::RuleDay, tz::timezone::Julian0WithLeap, tz::timezone::Julian1WithoutLeap, tz::timezone::MonthWeekDay)>,
+    pub errs: Option<(tz::Error, tz::TzError, tz::error::Error, tz::error::TzError, tz::error::datetime::DateTimeError, tz::error::timezone::LocalTimeTypeError, tz::error::timezone::TimeZoneError, tz::error::timezone::TransitionRuleError)>,
+}
